@@ -203,6 +203,12 @@ func (r *Run) verifAPI(fn *ssa.Function, args []Value) (Value, bool) {
 		ev.terms = append([]*Term{}, r.regionBytes(s.P, s.Len)...)
 		r.events = append(r.events, ev)
 		return Tuple{}, true
+	case "verifConcurrently":
+		fv := args[0].(*FuncV)
+		r.setMonitor(true)
+		r.callValue(fv, nil, 0)
+		r.setMonitor(false)
+		return Tuple{}, true
 	case "verifBindFormat":
 		tv := args[0]
 		if iv, ok := tv.(Iface); ok {
